@@ -70,8 +70,11 @@ RefMatch(g) == CASE g.ref = "nottel" -> \A i \in DOMAIN T.after.tels : T.after.t
                  [] OTHER -> g.matches
 MembershipRef == Applies => \A i \in DOMAIN T.qgroups :
                    T.qgroups[i].ref # "" => (QMember(T.qgroups[i]) <=> (After.status = "active" /\ RefMatch(T.qgroups[i])))
-\* a contact that BECOMES non-active leaves all its static groups
-Deactivated  == OK /\ Before.status = "active" /\ After.status # "active" => After.groups \subseteq QueryUUIDs
+\* a contact that BECOMES non-active leaves all its static groups (becomes: by what the engine did - a contact the host
+\* hands in with a resume is taken as it is, so the comparison starts from the last contact_refreshed of the sprint)
+RefreshIdx   == {i \in DOMAIN T.events : T.events[i].type = "contact_refreshed"}
+AsHandedIn   == IF RefreshIdx = {} THEN Before ELSE C(T.events[CHOOSE i \in RefreshIdx : \A j \in RefreshIdx : j <= i].c)
+Deactivated  == OK /\ AsHandedIn.status = "active" /\ After.status # "active" => After.groups \subseteq QueryUUIDs
 \* every membership change is reported: the groups part of Announced
 ChangesReported == OK => ApplyEvents(Before, T.events).groups = After.groups
 
